@@ -53,7 +53,11 @@ func (d h08Dev) text() string {
 	case "min":
 		body = " min-elements " + hItoa(int64(d.nval)) + ";"
 	case "max":
-		body = " max-elements " + hItoa(int64(d.nval)) + ";"
+		if d.nval == 1<<64-1 {
+			body = " max-elements unbounded;"
+		} else {
+			body = " max-elements " + hItoa(int64(d.nval)) + ";"
+		}
 	case "units":
 		body = ` units "` + d.sval + `";`
 	case "type":
@@ -87,8 +91,10 @@ func h08Draw() h08Dev {
 		d.sval = string([]byte{b})
 	case "config", "mandatory":
 		d.bval = symChoice(2) == 1
-	case "min", "max":
-		d.nval = []uint64{1, 5}[symChoice(2)]
+	case "min":
+		d.nval = []uint64{1, 5, 0}[symChoice(3)] // 0: the statement is given with its default value
+	case "max":
+		d.nval = []uint64{1, 5, 1<<64 - 1}[symChoice(3)] // the last: `unbounded`
 	case "badtype":
 		d.nval = uint64(symChoice(5))
 	}
